@@ -451,6 +451,54 @@ func (c *compiler) compile(tok *token) []instruction {
 		c.FuncName = tmp
 
 	case "=":
+		if targets := tok.Tokens[0].Tokens; len(targets) > 1 && slices.ContainsFunc(targets, func(t *token) bool { return t.Symbol == "index" || t.Symbol == "." }) {
+			// Tuple assignment with index or field targets, in Go's two phases: first the operands of the index
+			// expressions and selectors on the left and the values on the right are evaluated, then the assignments
+			// happen left to right (a[i], i = v, i+1 stores into the OLD a[i]).
+			slot := func(kind string, i int) reg {
+				return reg(c.Locals.Index(fmt.Sprintf("%v#%v%v", tok.Pos.String(), kind, i)))
+			}
+			for i, arg := range targets {
+				switch arg.Symbol {
+				case "index":
+					res = append(res, c.compile(arg.Tokens[0])...)
+					res = append(res, instruction{Code: codeLocalSet, A: slot("obj", i)})
+					res = append(res, c.compile(arg.Tokens[1])...)
+					res = append(res, instruction{Code: codeLocalSet, A: slot("key", i)})
+				case ".":
+					res = append(res, c.compile(arg.Tokens[0])...)
+					res = append(res, instruction{Code: codeLocalSet, A: slot("obj", i)})
+				}
+			}
+			res = append(res, c.compile(tok.Tokens[1])...)
+			for i := len(targets) - 1; i >= 0; i-- {
+				res = append(res, instruction{Code: codeLocalSet, A: slot("val", i)})
+			}
+			for i, arg := range targets {
+				if arg.Text == "_" {
+					continue
+				}
+				res = append(res, instruction{Code: codeLocalGet, A: slot("val", i)})
+				switch arg.Symbol {
+				case "index":
+					res = append(res, instruction{Code: codeLocalGet, A: slot("obj", i)})
+					res = append(res, instruction{Code: codeLocalGet, A: slot("key", i)})
+					res = append(res, instruction{Code: codeSet})
+				case ".":
+					res = append(res, instruction{Code: codeLocalGet, A: slot("obj", i)})
+					res = append(res, instruction{Code: codeSetAttr, A: reg(c.Globals.Index(arg.Tokens[1].Text))})
+				default:
+					code, lookup, key := codeGlobalSet, c.Globals, arg.Text
+					if c.Locals.Exists(key) {
+						code, lookup = codeLocalSet, c.Locals
+					} else {
+						key = c.expPrefix(key)
+					}
+					res = append(res, instruction{Code: code, A: reg(lookup.Index(key))})
+				}
+			}
+			break
+		}
 		res = append(res, c.compile(tok.Tokens[1])...)
 		for i := 1; i <= len(tok.Tokens[0].Tokens); i++ {
 			arg := tok.Tokens[0].Tokens[len(tok.Tokens[0].Tokens)-i]
